@@ -153,7 +153,7 @@ theorem triRun_length_le (t : Tri) (style : TriStyle) (bb : Rect) (hbb : triStyl
   | some it =>
     rw [hit] at hL
     simp only [Option.bind_some] at hL
-    have hL' : listFuel TriScanlines.next (3 * ((it.rowsEnd - it.rowsStart).toNat + 1) + 1) it = some L := by
+    have hL' : listFuel TriScanlines.nextLoop (3 * ((it.rowsEnd - it.rowsStart).toNat + 1) + 1) it = some L := by
       rw [← triScanlines_toListFuel_eq]; exact hL
     have hlen : L.length ≤ TriScanlines.mu it :=
       listFuel_length_le_mu (fun _ => True) TriScanlines.mu
@@ -183,7 +183,7 @@ theorem triRun_length_le (t : Tri) (style : TriStyle) (bb : Rect) (hbb : triStyl
 /-- **The pixel budget of a styled triangle suffices whenever no `fill_solid` rectangle of `draw()`
 is wider than the bounding box plus twice the stroke width plus 4** (and the top row of the box is
 an `i32`). -/
-theorem triPixelBudgetOK_of_widths (t : Tri) (style : TriStyle)
+theorem triPixelBudgetOK_of_widths (t : Tri) (style : TriStyle) (hf : TriFirstNoneFinal t style)
     (hwd : ∀ calls bb, triDraw t style = some calls → triStyledBoundingBox t style = some bb →
       -2147483648 ≤ bb.tl.y ∧ ∀ rc ∈ calls, rc.1.size.w ≤ bb.size.w + 2 * style.strokeWidth + 4) :
     TriPixelBudgetOK t style := by
@@ -195,7 +195,7 @@ theorem triPixelBudgetOK_of_widths (t : Tri) (style : TriStyle)
     | none => trivial
     | some bb =>
       dsimp only
-      obtain ⟨L, hL, hpre⟩ := triPixels_prefix_run t style bb hbb
+      obtain ⟨L, hL, hpre⟩ := triPixels_prefix_run t style hf bb hbb
       have hne : ∀ x ∈ L, x.1.isEmpty = false := by
         obtain ⟨li, hli⟩ := triScanlines_total t style
         obtain ⟨L2, hL2, -, hne2⟩ := triLines li
@@ -340,11 +340,11 @@ theorem triDraw_rect_nonzero (t : Tri) (style : TriStyle) (calls : List (Rect ×
 
 /-- **Whenever everything `draw()` fills lies inside the bounding box (C02's claim) and the top row of
 the box is an `i32`, the pixel budget of the triangle model suffices.** -/
-theorem triPixelBudgetOK_of_draw_in_box (t : Tri) (style : TriStyle)
+theorem triPixelBudgetOK_of_draw_in_box (t : Tri) (style : TriStyle) (hf : TriFirstNoneFinal t style)
     (h : ∀ calls bb, triDraw t style = some calls → triStyledBoundingBox t style = some bb →
       -2147483648 ≤ bb.tl.y ∧ ∀ rc ∈ calls, ∀ p, rc.1.contains p = true → bb.contains p = true) :
     TriPixelBudgetOK t style := by
-  apply triPixelBudgetOK_of_widths
+  apply triPixelBudgetOK_of_widths t style hf
   intro calls bb hd hbb
   obtain ⟨htop, hin⟩ := h calls bb hd hbb
   refine ⟨htop, fun rc hrc => ?_⟩
